@@ -530,7 +530,8 @@ class PinpointFragmenter(Fragmenter):
         return False
 
     def fragment_tokens(self, text, tokens):
-        matched = [t for t in tokens if t.matched]
+        # Analyzers re-use one Token object, so keep copies of the matches
+        matched = [t.copy() for t in tokens if t.matched]
         return self.fragment_matches(text, matched)
 
     @staticmethod
